@@ -142,8 +142,10 @@ int main() {
                     int32_t e32 = lwePhase(&ks2->ks[i][j][h], sk->lwe_key) - (int32_t) ((uint32_t) (si * h) << (32 - (j + 1) * bb));
                     long double e = (long double) e32; if (si) { r1 += e * e; d1++; } else { r0 += e * e; d0++; } } }
         }
-        printf("%zu %zu %d %zu %zu %d %d %d %d %d %d %d %d %d %d %d %d %d %d %ld %ld %ld %.0Lf %ld %.0Lf %ld %.0Lf %ld %.0Lf %ld %.0f %.0f\n", cb.size(), sb.size(), prefix ? 1 : 0, sb.size() - cb.size(), pb.size(), n, N, k,
-               params->tgsw_params->l, params->ks_t, params->ks_basebit, found ? 1 : 0, re_c ? 1 : 0, re_s ? 1 : 0, gates_eq ? 1 : 0, dec_eq ? 1 : 0, fields ? 1 : 0, cross ? 1 : 0, dec_ok ? 1 : 0, clear, unmasked, c0, c0 ? sqrtl(q0 / c0) : 0.0L, c1, c1 ? sqrtl(q1 / c1) : 0.0L, d0, d0 ? sqrtl(r0 / d0) : 0.0L, d1, d1 ? sqrtl(r1 / d1) : 0.0L, dupmask, params->tgsw_params->tlwe_params->alpha_min * 4294967296., params->in_out_params->alpha_min * 4294967296.);
+        uint64_t hcb = 1469598103934665603ull; for (unsigned char ch : cb) { hcb ^= ch; hcb *= 1099511628211ull; }   // FNV-1a of the exported cloud key
+        printf("%zu %zu %d %zu %zu %d %d %d %d %d %d %d %d %d %d %d %d %d %d %ld %ld %ld %.0Lf %ld %.0Lf %ld %.0Lf %ld %.0Lf %ld %.0f %.0f %u %u %u %u\n", cb.size(), sb.size(), prefix ? 1 : 0, sb.size() - cb.size(), pb.size(), n, N, k,
+               params->tgsw_params->l, params->ks_t, params->ks_basebit, found ? 1 : 0, re_c ? 1 : 0, re_s ? 1 : 0, gates_eq ? 1 : 0, dec_eq ? 1 : 0, fields ? 1 : 0, cross ? 1 : 0, dec_ok ? 1 : 0, clear, unmasked, c0, c0 ? sqrtl(q0 / c0) : 0.0L, c1, c1 ? sqrtl(q1 / c1) : 0.0L, d0, d0 ? sqrtl(r0 / d0) : 0.0L, d1, d1 ? sqrtl(r1 / d1) : 0.0L, dupmask, params->tgsw_params->tlwe_params->alpha_min * 4294967296., params->in_out_params->alpha_min * 4294967296.,
+               (unsigned) (hcb & 0xFFFF), (unsigned) ((hcb >> 16) & 0xFFFF), (unsigned) ((hcb >> 32) & 0xFFFF), (unsigned) ((hcb >> 48) & 0xFFFF));
         fflush(stdout);
         delete_gate_bootstrapping_ciphertext(o2); delete_gate_bootstrapping_ciphertext(o1); delete_gate_bootstrapping_ciphertext_array(3, in);
         delete_gate_bootstrapping_secret_keyset(sk2); delete_gate_bootstrapping_cloud_keyset(ck2); delete_gate_bootstrapping_secret_keyset(sk);
